@@ -183,6 +183,7 @@ class Mon:
                 self.resident[resp.shmid] = req.l
                 self.sizes[resp.shmid] = req.l
                 self.writer_closed.discard(req.key)
+                self.delayed_purge.discard(req.key)      # a new incarnation: whatever was pending for the old one went with it
                 K.probe("grant")
             elif err == "capacity exceeded":
                 if req.l <= self.cap:
